@@ -127,6 +127,17 @@ CLAIMED["C12"] = dict(
          "counted; DFDU/DFDP are C18's subject.",
     design_ref="DESIGN.md §4 C12")
 
+CLAIMED["C16"] = dict(
+    technique="Hypothesis-generated population circuits; differential against the reference interpreter applied to "
+              "the explicit unit-by-unit network",
+    text="PopulationTemplate/Connectivity circuits (non-square signed sparse matrices, scalar weights, per-unit "
+         "parameters, algebraic coupling edges, delays with and without spread) are simulated and every unit's "
+         "trajectory (columns (key, unit) in unit order) is compared with the explicit network interpreted by the "
+         "reference model.",
+    note="Euler, 10-25 steps; unit order made observable by unique per-unit initial values; shapes of the listed "
+         "findings F-16b..h and the generic spec-level findings are excluded and counted.",
+    design_ref="DESIGN.md §4 C16")
+
 NOT_YET = {}
 
 
